@@ -13,7 +13,7 @@ Parts (see DESIGN.md, section C09):
               direct_arg, caller_agrees the other parameters: own argument p+1; C14's caller-side packing puts slot p there
               run_eq, ref_resolution   evaluation on every call = the callee-side spec
               return_logged_once / return_log_is_last / void_adds_no_log, frame_cells
-              contract_selectors_partial / contract_shape / contract_selectors_counterexample
+              contract_selectors / contract_shape / contract_selectors_old_counterexample (regression witness)
 2. tie      constants (METHOD_ARG_NUM_CUTOFF, RETURN_HASH_PREFIX) and, for every generated signature, the decoding
             events found in the REAL approval TEAL (which application argument / group offset / type assertion goes to
             which parameter cell, in program order; frame cells of the frame-pointer flavour) = the model's `glue`.
@@ -26,7 +26,8 @@ Parts (see DESIGN.md, section C09):
             its array must fail.  Three-way: real TEAL = client expectation = Lean model (`c09-run`, `c09-wrap`).
 4. contract the real `compile_program()[2]` / `contract_construct()` lists exactly the registered methods, with the
             signatures found in the `method "..."` lines of the real approval TEAL (and the model `c09-contract`).
-   Known finding C09-contract-ignores-overriding-name (add_method_handler(overriding_name=...)).
+   add_method_handler(overriding_name=...) is part of every run (the contract once kept the subroutine's own name:
+   repaired in /repo commit caa13a5; a relapse is a VIOLATION with the router as replay).
 """
 from __future__ import annotations
 
@@ -46,9 +47,8 @@ REQUIRED_THEOREMS = ["PyTealV.Proofs.C09." + t for t in [
     "arg_binding", "txn_index_arith", "txn_consecutive", "ref_resolution", "tuple_types", "tuple_cutoff", "direct_arg",
     "caller_agrees", "run_eq",
     "txn_missing_fails", "txn_wrong_type_fails", "missing_arg_fails", "frame_cells", "prefix_const",
-    "return_logged_once", "return_log_is_last", "void_adds_no_log", "contract_selectors_partial", "contract_shape",
-    "contract_selectors_counterexample"]]
-KEY_OVERRIDE = "C09-contract-ignores-overriding-name"
+    "return_logged_once", "return_log_is_last", "void_adds_no_log", "contract_selectors", "contract_shape",
+    "contract_selectors_old_counterexample"]]
 TRUSTED = [
     "Lean 4 kernel; axioms propext, Classical.choice, Quot.sound only",
     "callee side of the ARC-4 calling convention as written in Models/RouterArgs.lean Part A (specBinding, specTupleTypes, "
@@ -665,8 +665,8 @@ def run_call(cx: Ctx, case, var, call, expect, replay_base):
     cx.count("call/" + label)
     if obs[0] == "other":
         if cx.rejected_by_pyteal:
-            # a compilation that raised earlier in this process may leave PyTeal's frame-pointer state behind (finding of
-            # C11); what it then emits for later programs is not what this check is about
+            # a compilation raised earlier in this process (already reported): should PyTeal keep state from it, what it
+            # emits for later programs is not what this check is about
             cx.violate(f"{sig_text(case)} [{vkey(var)}]: {obs[1]} after an earlier compilation raised ({list(cx.rejected_by_pyteal)[:2]})",
                        replay, no_input=True)
             return obs
@@ -752,7 +752,6 @@ def check_contract(cx: Ctx, regs, ap, contract, built, replay_base):
     if not m:
         raise ToolFailure("c09-contract: " + ans[:300])
     m_contract, m_dispatch = [[bytes.fromhex(x).decode() for x in g.split(",")] for g in m.groups()]
-    renamed = any(how == "override" for _, _, how in regs)
     if [x.get_signature() for x in built.methods] != listed:
         cx.violate(f"contract_construct() {[x.get_signature() for x in built.methods]} != compile_program()[2] {listed}", replay)
     if sorted(dispatched) != sorted(registered):
@@ -761,13 +760,8 @@ def check_contract(cx: Ctx, regs, ap, contract, built, replay_base):
     if [x.get_selector() for x in contract.methods] != [sel(s) for s in listed]:
         cx.violate("contract selectors are not the selectors of its signatures", replay)
     if listed != registered or sorted(sel(s) for s in listed) != sorted(sel(s) for s in dispatched):
-        what = f"contract lists {listed}; the approval program dispatches on {dispatched} (registered: {registered})"
-        if renamed and [s for s, (_, _, how) in zip(listed, regs) if how != "override"] == \
-                [s for s, (_, _, how) in zip(registered, regs) if how != "override"]:
-            cx.violate(what, replay, key=KEY_OVERRIDE)
-            cx.count("known:overriding-name")
-        else:
-            cx.violate(what, replay)
+        cx.violate(f"contract lists {listed}; the approval program dispatches on {dispatched} (registered: {registered})", replay)
+    cx.count("registration/" + "+".join(sorted({how for _, _, how in regs})))
     if m_contract != listed or sorted(m_dispatch) != sorted(dispatched):
         cx.mismatch += 1
         cx.violate(f"model contract {m_contract} / dispatch {m_dispatch} vs real {listed} / {dispatched}", replay, no_input=True)
@@ -856,18 +850,19 @@ def check_constants(cx: Ctx):
             cx.violate(f"{k} = {bytes(v).hex()}, model/ARC-4: {m.group(2)}", {"kind": "const", "name": k, "value": bytes(v).hex()}, no_input=True)
 
 
-def replay_counterexample(cx: Ctx):
-    """`contract_selectors_counterexample` on the real code: add_method_handler(m, overriding_name="foo")"""
+def replay_regression(cx: Ctx):
+    """the input of `contract_selectors_old_counterexample` on the real code: add_method_handler(m, overriding_name="foo")
+    must list `foo()void` in the contract (repaired defect; a relapse is reported by check_contract)"""
     case = {"params": [], "ret": "void", "ret_mode": "-"}
     other = {"params": [], "ret": "void", "ret_mode": "-"}
-    var = {"version": 8, "frame_pointers": True, "scratch_slots": False}
-    res = compile_case(cx.real, case, var, [(other, "foo", "override")])
-    cx.compiles += 1
-    if res[0] != "ok":
-        raise ToolFailure("counterexample router does not compile: " + str(res))
-    _, ap, cl, contract, built = res
-    check_contract(cx, [(case, "hnd", "add"), (other, "foo", "override")], ap, contract, built,
-                   {"case": case, "variant": var, "extra": [[other, "foo", "override"]]})
+    for var in [{"version": 8, "frame_pointers": True, "scratch_slots": False}, {"version": 6, "frame_pointers": False, "scratch_slots": True}]:
+        res = compile_case(cx.real, case, var, [(other, "foo", "override")])
+        cx.compiles += 1
+        if res[0] != "ok":
+            raise ToolFailure("regression router does not compile: " + str(res))
+        _, ap, cl, contract, built = res
+        check_contract(cx, [(case, "hnd", "add"), (other, "foo", "override")], ap, contract, built,
+                       {"case": case, "variant": var, "extra": [[other, "foo", "override"]]})
 
 
 def fixed_cases(real: Real):
@@ -917,7 +912,7 @@ def run(tier: str) -> int:
     vs = variants()
     try:
         check_constants(cx)
-        replay_counterexample(cx)
+        replay_regression(cx)
         r = rng("c09-cases")
         fixed = fixed_cases(cx.real)
         if tier == "quick":
